@@ -381,9 +381,26 @@ def build_case(ctx, kind, r, small):
         edges0 = np.argwhere(A if directed else np.triu(A))
         if via_edges:
             ctx.count("rebuilt_from_edge_list")
+        # ... or entered through the other public door: an igraph object of
+        # the caller, whose links are numbered in the caller's order (after a
+        # renumbering of the nodes that order is not the sorted one)
+        via_igraph = bool(not via_edges and kind.startswith("Network")
+                          and len(edges0) and r.random() < 0.3)
+        if via_igraph:
+            ctx.count("entered_through_igraph_object")
+            eorder = r.permutation(len(edges0))
 
         def make(p):
             Ap = A[np.ix_(p, p)]
+            if via_igraph:
+                import igraph
+                ip = np.argsort(p)
+                e = edges0[eorder]
+                g = igraph.Graph(n=n, edges=ip[e].tolist(), directed=directed)
+                g.vs["node_weight_nsi"] = w[p].tolist()
+                if W is not None:
+                    g.es["w"] = [float(W[a, b]) for a, b in e]
+                return Network.FromIGraph(g, silence_level=3)
             if kind == "GeoNetwork":
                 g = GeoGrid(np.arange(2.), lat[p], lon[p], silence_level=3)
                 o = GeoNetwork(g, adjacency=Ap, node_weight_type="surface",
